@@ -697,5 +697,5 @@ def rule_must_expire(ctx):
             if not ok:
                 r.violate(nid, 'expiry-scan-condition', 'wo=%d,ao=%d' % (wo, ao), 'a path of %s with ttl=%s tti=%s watermark=%s runs %d write-order and %d access-order scans (expected %d and %d): '
                           'entries expired by one timer are not purged when the other is also configured' % (nid, ttl, tti, va, wo, ao, want_wo, want_ao), where=ctx.where(nid))
-    r.require_floor(6 if ctx.has_sync else 4, 'expiry paths')
+    r.require_floor(6 if ctx.has_sync else 2, 'expiry paths')
     return r
